@@ -4,7 +4,7 @@
    code 1 = the model predicts something else than the implementation did;
    code 2 = the property itself (spec_accepted, sticky ceiling, ceiling enforced by the cipher) fails on what the
             implementation did - a concrete failing input. *)
-From Coq Require Import List NArith Bool.
+From Coq Require Import List NArith ZArith Bool.
 Import ListNotations.
 From NV Require Import lib.Bytes lib.Corr gen.Consts_Nonce model.Nonce.
 Open Scope N_scope.
@@ -15,16 +15,27 @@ Open Scope N_scope.
 Inductive mop := MR (t : N) | ME (t : N).
 
 (* observed after a macro step: the nonce that reached the cipher wrapper (MR), whether the real cipher accepted it (ME),
-   and messageCounter.Load() *)
-Definition mobs := (option N * bool * N)%type.
+   and messageCounter.Load() (None where another thread, released by this step, may already be running).
+   In lock mode the harness also tries MR t while another thread is parked inside the critical section: the real thread
+   blocks on writeLock (observed: nothing reaches the cipher, counter unchanged - the model's stutter); the thread goes on
+   by itself once the lock is released, which the script records as a second MR t. *)
+Definition mobs := (option N * bool * option N)%type.
+(* one scripted step with its observation; one logged EncryptDanger call (flat constructors: cheap to elaborate) *)
+(* counters are written as signed offsets from the case's starting counter c0 (short literals elaborate much faster) *)
+Definition absN (c0 : N) (d : Z) : N := Z.to_N (Z.of_N c0 + d).
+Inductive mstep := MS (op : mop) (arrived : option Z) (ok : bool) (counter : option Z).
+Inductive lrec := LR (nonce : Z) (ok : bool).
+Definition unstep (c0 : N) (m : mstep) : mop * mobs :=
+  let '(MS op a ok c) := m in (op, (option_map (absN c0) a, ok, option_map (absN c0) c)).
+Definition unrec (c0 : N) (r : lrec) : N * bool := let '(LR n ok) := r in (absN c0 n, ok).
 
 Inductive case :=
 | CMode (lock_needed cipher_checks_order : bool)
 | CCipher (kind n : N) (ok : bool)
 | CSeed (idx c0 : N)
 | CNext (c0 c : N) (ok : bool) (after : N)
-| CScript (lk : bool) (c0 : N) (progs : list (list N)) (ops : list (mop * mobs))
-| CStress (lk : bool) (c0 sends : N) (log : list (N * bool)) (final panics : N)
+| CScript (lk : bool) (c0 : N) (progs : list (list N)) (steps : list mstep)
+| CStress (lk : bool) (c0 sends : N) (records : list lrec) (final : Z) (panics : N)
 | CStressBig (lk : bool) (dups out_of_range non_increasing late_ok panics : N).
 
 Definition sceilR := RejectAfterMessages.
@@ -65,7 +76,8 @@ Definition enc_ok (e : event) : bool := match e with EvEnc _ _ true => true | _ 
 
 Definition mobs_eqb (a b : mobs) : bool :=
   let '(a1, a2, a3) := a in let '(b1, b2, b3) := b in
-  option_eqb N.eqb a1 b1 && Bool.eqb a2 b2 && (a3 =? b3).
+  option_eqb N.eqb a1 b1 && Bool.eqb a2 b2 &&
+  match a3, b3 with Some x, Some y => x =? y | _, _ => true end.
 
 (* does the model predict every observation of the script? *)
 Fixpoint sim (cf : cfg) (ops : list (mop * mobs)) (s : state) : bool :=
@@ -75,16 +87,19 @@ Fixpoint sim (cf : cfg) (ops : list (mop * mobs)) (s : state) : bool :=
       is_idle (ph (threads s t)) &&
       (let '(s', _) := run_thread cf 4 t s [] in
        let arrived := match ph (threads s' t) with Reserved c => Some c | _ => None end in
-       mobs_eqb (arrived, false, ctr s') o && sim cf r s')
+       mobs_eqb (arrived, false, Some (ctr s')) o && sim cf r s')
   | (ME t, o) :: r =>
       is_reserved (ph (threads s t)) &&
       (let '(s', ev) := run_thread cf 4 t s [] in
-       mobs_eqb (None, existsb enc_ok ev, ctr s') o && is_idle (ph (threads s' t)) && sim cf r s')
+       mobs_eqb (None, existsb enc_ok ev, Some (ctr s')) o && is_idle (ph (threads s' t)) && sim cf r s')
   end.
 
 (* ---- the property on the implementation's own observations ---- *)
 Fixpoint lookup (t : N) (l : list (N * (N * bool))) : option (N * bool) :=
   match l with [] => None | (k, v) :: r => if k =? t then Some v else lookup t r end.
+
+Definition at_ceiling (c : option N) : bool := match c with Some x => eceilR <=? x | None => false end.
+Definition still_at_ceiling (c : option N) : bool := match c with Some x => eceilR <=? x | None => true end.
 
 (* walk the observations: pend maps a thread to (nonce parked at the cipher, was the ceiling already reached when that
    send started); hit = the counter has been seen at or above the ceiling; acc = accepted nonces, latest first.
@@ -95,14 +110,14 @@ Fixpoint walk (ops : list (mop * mobs)) (pend : list (N * (N * bool))) (hit : bo
   | [] => (true, true, rev acc)
   | (MR t, (arr, _, c)) :: r =>
       let pend' := match arr with Some n => (t, (n, hit)) :: pend | None => pend end in
-      let '(a, st, l) := walk r pend' (hit || (eceilR <=? c)) acc in
-      (a, st && (negb hit || (eceilR <=? c)), l)
+      let '(a, st, l) := walk r pend' (hit || at_ceiling c) acc in
+      (a, st && (negb hit || still_at_ceiling c), l)
   | (ME t, (_, ok, c)) :: r =>
       match lookup t pend with
       | None => (false, true, rev acc)
       | Some (n, late) =>
-          let '(a, st, l) := walk r pend (hit || (eceilR <=? c)) (if ok then n :: acc else acc) in
-          (a, st && negb (ok && late) && (negb hit || (eceilR <=? c)), l)
+          let '(a, st, l) := walk r pend (hit || at_ceiling c) (if ok then n :: acc else acc) in
+          (a, st && negb (ok && late) && (negb hit || still_at_ceiling c), l)
       end
   end.
 
@@ -126,7 +141,8 @@ Definition check_case (c : case) : list N :=
       let c' := w64 (c0 + 1) in
       let ok' := c' <? sceilR in
       flag 1 ((c =? c') && Bool.eqb ok ok' && (after =? (if ok' then c' else sceilR)))
-  | CScript lkm c0 progs ops =>
+  | CScript lkm c0 progs steps =>
+      let ops := map (unstep c0) steps in
       match progs_of progs with
       | None => [1]
       | Some ps =>
@@ -137,13 +153,14 @@ Definition check_case (c : case) : list N :=
             then flag 2 (spec_accepted lkm eceilR c0 accepted && sticky_ok)
             else []))
       end
-  | CStress lkm c0 sends log final panics =>
+  | CStress lkm c0 sends records final panics =>
+      let log := map (unrec c0) records in
       let accepted := map fst (filter snd log) in
       flag 2 (spec_accepted lkm eceilR c0 accepted) ++
       flag 2 (forallb (fun e => negb (snd e && (eceilR <=? fst e))) log) ++
       flag 1 (forallb (fun e => snd e || (eceilR <=? fst e)) log) ++
       flag 2 (negb lkm || (sticky_log log false && (panics =? 0))) ++
-      flag 2 (forallb snd log || (eceilR <=? final))
+      flag 2 (forallb snd log || (eceilR <=? absN c0 final))
   | CStressBig lkm dups oor noninc late panics =>
       flag 2 ((dups =? 0) && (oor =? 0)) ++
       flag 2 (negb lkm || ((noninc =? 0) && (late =? 0) && (panics =? 0)))
